@@ -14,6 +14,7 @@ const C = require('./lib/common.js')
 const T = require('./lib/tmplmodel.js')
 const G = require('./lib/tmplgen.js')
 const M = require('./lib/exprmodel.js')
+const RT = require('./lib/rt_record.js')
 const NODE22 = process.execPath
 const HOOKS = fileURLToPath(new URL('./rt_real/hooks.mjs', import.meta.url))
 
@@ -264,13 +265,148 @@ function exploreEquivalence(cs, bundle, bundle2, rep, depth2) {
   if (cs.__printed !== cs.__src) rep.nontrivialCase(cs.name)
 }
 
+// ---------------------------------------------------------------------------------------------
+// slot-scope content: the element `c` is a component with dynamic slots whose template provides the slot values;
+// histories interleave updates of the parent's data with updates of the child's data (slot values change, slot
+// instances appear and disappear)
+
+const CHILD_TEMPLATES = {
+  'comp/single': '<slot u="{{p}}" u-v="{{p}}" v="{{p}}" a="{{q}}" zz="{{q}}" w="{{q}}"/><slot name="s" u="{{p}}" v="{{q}}"/>',
+  'comp/repeated': '<block wx:for="{{ps}}"><slot u="{{item}}" u-v="{{item}}" v="{{item}}" a="{{q}}"/></block><slot name="s" u="{{p}}"/>',
+  'comp/conditional': '<block wx:if="{{on}}"><slot u="{{p}}" u-v="{{q}}" v="{{p}}"/></block><slot wx:else name="s" u="{{q}}"/>',
+}
+const CHILD_INITIAL = { p: 'P', q: 'Q', ps: ['p1', 'p2'], on: 1 }
+const CHILD_ALT = { p: ['P', 'P2', undefined, { b: 'pb' }, 0], q: ['Q', 'Q2', undefined], ps: [['p1', 'p2'], [], ['p1'], ['p2', 'p1'], ['p1', 'p2', 'p3'], ['p0', 'p1', 'p2']], on: [1, 0] }
+const CHILD_FIELDS = { 'comp/single': ['p', 'q'], 'comp/repeated': ['ps', 'q', 'p'], 'comp/conditional': ['on', 'p', 'q'] }
+
+function childTransitions(cdata, child) {
+  const out = []
+  for (const f of CHILD_FIELDS[child]) for (const v of CHILD_ALT[f]) {
+    if (key(v) === key(cdata[f])) continue
+    out.push({ label: `child: ${f} = ${key(v)}`, child: true, ops: [{ path: [f], value: v }] })
+  }
+  return out
+}
+
+function exploreSlotCase(cs, bundle, rep, thorough) {
+  const names = G.collectNames([cs.main, cs.files])
+  const updateMode = MODE === 'C06' ? 'virtualTree' : undefined
+  for (const childPath of Object.keys(CHILD_TEMPLATES)) {
+    const extra = (cdata) => ({ using: true, slotTemplate: { content: bundle[childPath], groupList: bundle }, slotData: cdata })
+    const freshCache = new Map()
+    const fresh = (data, cdata) => {
+      const k = key([data, cdata])
+      if (!freshCache.has(k)) freshCache.set(k, D.serialize(D.create(bundle, MAIN, data, updateMode, extra(cdata)).shadowRoot))
+      return freshCache.get(k)
+    }
+    const apply = (comp, t) => {
+      if (!t.child) { applyToInstance(comp, t); return true }
+      const child = D.findChild(comp.shadowRoot)
+      if (!child) return false
+      child.groupUpdates(() => { for (const op of t.ops) child.replaceDataOnPath(op.path, clone(op.value)) })
+      return true
+    }
+    const seen = new Set()
+    let failed = false
+    INITIAL.forEach((init, ii) => {
+      if (failed) return
+      const step1 = [...transitions(init, names, true), ...childTransitions(CHILD_INITIAL, childPath)]
+      for (const t1 of step1) {
+        if (failed) return
+        const d1 = t1.child ? init : applyToData(init, t1)
+        const c1 = t1.child ? applyToData(CHILD_INITIAL, t1) : CHILD_INITIAL
+        const second = [null, ...(t1.child ? transitions(d1, names, true) : childTransitions(c1, childPath)), ...(thorough && t1.child ? childTransitions(c1, childPath) : [])]
+        for (const t2 of second) {
+          const d2 = !t2 || t2.child ? d1 : applyToData(d1, t2)
+          const c2 = t2 && t2.child ? applyToData(c1, t2) : c1
+          let got
+          const labels = t2 ? [t1.label, t2.label] : [t1.label]
+          try {
+            const comp = D.create(bundle, MAIN, init, updateMode, extra(CHILD_INITIAL))
+            if (!apply(comp, t1)) continue
+            if (t2 && !apply(comp, t2)) continue
+            got = D.serialize(comp.shadowRoot)
+          } catch (e) { got = 'throws ' + String(e).slice(0, 160) }
+          rep.transitions += t2 ? 2 : 1
+          rep.evaluations += 1
+          const k2 = ii + '|' + key([d2, c2])
+          if (!seen.has(k2)) { seen.add(k2); rep.states += 1 }
+          let want
+          try { want = fresh(d2, c2) } catch (e) { want = 'throws ' + String(e).slice(0, 160) }
+          if (want !== fresh(init, CHILD_INITIAL)) rep.nontrivial += 1
+          if (got !== want) {
+            failed = true
+            rep.violation(`${MODE}|slot-scope|${childPath}|${cs.name.replace(/\|syntax.*/, '')}`, `template ${JSON.stringify(cs.__src)} (${cs.name}) with the slot-providing child ${JSON.stringify(CHILD_TEMPLATES[childPath])}: after ${JSON.stringify(labels)} from initial state ${ii} the tree is ${got} but a fresh creation with parent data ${key(d2)} and child data ${key(c2)} gives ${want}`,
+              { engine: MODE.toLowerCase(), case: cs.name, slot: childPath, initial: ii, history: [t1, t2].filter(Boolean).map((t) => ({ child: !!t.child, ops: t.ops })), labels })
+            break
+          }
+        }
+      }
+    })
+    rep.outcome(['slot', failed, childPath, cs.name.replace(/\(.*/, ''), seen.size])
+    if (seen.size > 1) rep.nontrivialCase(cs.name + '|' + childPath)
+  }
+}
+
+// ---------------------------------------------------------------------------------------------
+// conformance of substrate B (second engine of C04): the recording runtime and the real runtime must build the same
+// skeleton (tags, nesting, text, dataset, marks, slot elements) from the same bundle and data
+
+function skeletonB(nodes) {
+  const out = []
+  const walk = (n, acc) => {
+    if (n.t === 'text') { acc.push(JSON.stringify(n.text)); return }
+    if (n.t === 'slot') {
+      acc.push(`<slot name=${JSON.stringify(n.name)}>`)
+      return
+    }
+    if (n.t !== 'el') { (n.children || []).forEach((c) => walk(c, acc)); return }
+    const ds = {}; const marks = {}
+    for (const a of n.attrs) { if (a[0] === 'dataset') ds[a[1]] = a[2]; if (a[0] === 'mark') marks[a[1]] = a[2] }
+    const parts = []
+    if (Object.keys(ds).length) parts.push('dataset=' + D.showValue(ds))
+    if (Object.keys(marks).length) parts.push('marks=' + D.showValue(marks))
+    const inner = []
+    n.children.forEach((c) => walk(c, inner))
+    acc.push(`<${n.tag}${parts.length ? ' ' + parts.join(' ') : ''}>${inner.join('')}</${n.tag}>`)
+  }
+  nodes.forEach((c) => walk(c, out))
+  return out.join('')
+}
+
+function exploreConformance(cs, bundle, code, rep) {
+  const names = G.collectNames([cs.main, cs.files])
+  const Gs = RT.loadGroups(code, false)
+  const datas = []
+  INITIAL.forEach((init) => { datas.push(init); for (const t of transitions(init, names, false)) datas.push(applyToData(init, t)) })
+  const seen = new Set()
+  for (const data of datas) {
+    const k = key(data)
+    if (seen.has(k)) continue
+    seen.add(k)
+    rep.states += 1; rep.transitions += 1; rep.evaluations += 2
+    let a, b
+    try { a = D.skeleton(D.create(bundle, MAIN, data, undefined).shadowRoot) } catch (e) { a = 'throws ' + String(e).slice(0, 100) }
+    try { b = skeletonB(RT.render(Gs, MAIN, clone(data)).nodes) } catch (e) { b = 'throws ' + String(e).slice(0, 100) }
+    rep.outcome([a === b, a.length])
+    if (a !== b) {
+      rep.violation(`C04|substrate-conformance|${cs.name.replace(/\(.*/, '')}`, `MACHINERY-LEVEL DISAGREEMENT: for template ${JSON.stringify(cs.__src)} (${cs.name}) with data ${k} the real runtime builds ${a} but the recording runtime builds ${b}`, { engine: 'c04conf', case: cs.name, data: k })
+      return
+    }
+  }
+  if (seen.size > 1) rep.nontrivialCase(cs.name)
+}
+
 function corpus(thorough) {
   return G.corpus(thorough).filter(usable)
+}
+function slotCorpus(thorough) {
+  return MODE === 'C14' || MODE === 'C04' ? [] : G.corpus(thorough).filter((c) => !usable(c))
 }
 
 function runShard(info, thorough) {
   const rep = new C.Report()
-  const all = corpus(thorough)
+  const all = [...corpus(thorough), ...slotCorpus(thorough).map((c) => Object.assign({ slotCase: true }, c))]
   const mine = all.filter((_, i) => i % info.of === info.shard)
   const CH = 200
   for (let s = 0; s < mine.length; s += CH) {
@@ -278,6 +414,7 @@ function runShard(info, thorough) {
     const jobs = part.map((cs, i) => {
       const files = [[MAIN, T.print(cs.main).text]]
       for (const p of Object.keys(cs.files)) files.push([p, T.print(cs.files[p]).text])
+      if (cs.slotCase) for (const p of Object.keys(CHILD_TEMPLATES)) files.push([p, CHILD_TEMPLATES[p]])
       return { id: i, files, scripts: Object.keys(cs.scripts).map((p) => [p, cs.scripts[p]]), want: MODE === 'C14' ? ['groups', 'stringify'] : ['groups'] }
     })
     const res = C.compileBatch(jobs, 1)
@@ -296,7 +433,9 @@ function runShard(info, thorough) {
         if (MODE === 'C14') {
           if (res2[i].panic) { rep.machineryErrors.push('compiler panicked on the printed text of ' + cs.name); return }
           exploreEquivalence(cs, bundle, D.loadBundle(res2[i].outputs.groups.ok), rep, thorough)
-        } else exploreCase(cs, bundle, rep, true)
+        } else if (MODE === 'C04') exploreConformance(cs, bundle, res[i].outputs.groups.ok, rep)
+        else if (cs.slotCase) exploreSlotCase(cs, bundle, rep, thorough)
+        else exploreCase(cs, bundle, rep, true)
       } catch (e) { rep.machineryErrors.push(`explorer failed on ${cs.name}: ${e && e.stack}`) }
       if ((s + i) % 307 === 0) rep.sample({ case: cs.name, template: cs.__src, initial_states: 2 })
     })
@@ -306,6 +445,17 @@ function runShard(info, thorough) {
 }
 
 function replayOne(rec) {
+  if (MODE === 'C04') {
+    const cs = G.corpus(true).find((c) => c.name === rec.case)
+    if (!cs) return { deterministic: true, failure: null, note: 'case no longer in the corpus' }
+    const files = [[MAIN, T.print(cs.main).text]]
+    for (const p of Object.keys(cs.files)) files.push([p, T.print(cs.files[p]).text])
+    const r = C.compileBatch([{ id: 0, files, scripts: Object.keys(cs.scripts).map((p) => [p, cs.scripts[p]]), want: ['groups'] }], 1)[0]
+    cs.__src = files.map((f) => f[1]).join(' | ')
+    const once = () => { const rep = new C.Report(); exploreConformance(cs, D.loadBundle(r.outputs.groups.ok), r.outputs.groups.ok, rep); return [...rep.violations.values()].map((v) => v.what.slice(0, 400)) }
+    const a = once(); const b = once()
+    return { deterministic: key(a) === key(b), failure: a.length ? a : null }
+  }
   if (MODE === 'C14') {
     const cs = G.corpus(true).find((c) => c.name === rec.case)
     if (!cs) return { deterministic: true, failure: null, note: 'case no longer in the corpus' }
@@ -322,9 +472,28 @@ function replayOne(rec) {
   if (!cs) return { deterministic: true, failure: null, note: 'case no longer in the corpus' }
   const files = [[MAIN, T.print(cs.main).text]]
   for (const p of Object.keys(cs.files)) files.push([p, T.print(cs.files[p]).text])
+  if (rec.slot) for (const p of Object.keys(CHILD_TEMPLATES)) files.push([p, CHILD_TEMPLATES[p]])
   const res = C.compileBatch([{ id: 0, files, scripts: Object.keys(cs.scripts).map((p) => [p, cs.scripts[p]]), want: ['groups'] }], 1)[0]
   const bundle = D.loadBundle(res.outputs.groups.ok)
   const updateMode = MODE === 'C06' ? 'virtualTree' : undefined
+  if (rec.slot) {
+    const extra = (cdata) => ({ using: true, slotTemplate: { content: bundle[rec.slot], groupList: bundle }, slotData: cdata })
+    const once = () => {
+      let data = INITIAL[rec.initial]; let cdata = CHILD_INITIAL; let got
+      for (const t of rec.history) { if (t.child) cdata = applyToData(cdata, t); else data = applyToData(data, t) }
+      try {
+        const comp = D.create(bundle, MAIN, INITIAL[rec.initial], updateMode, extra(CHILD_INITIAL))
+        for (const t of rec.history) {
+          if (t.child) { const child = D.findChild(comp.shadowRoot); child.groupUpdates(() => { for (const op of t.ops) child.replaceDataOnPath(op.path, clone(op.value)) }) } else applyToInstance(comp, t)
+        }
+        got = D.serialize(comp.shadowRoot)
+      } catch (e) { got = 'throws ' + String(e).slice(0, 160) }
+      const want = D.serialize(D.create(bundle, MAIN, data, updateMode, extra(cdata)).shadowRoot)
+      return got === want ? null : `after the history the tree is ${got}, a fresh creation gives ${want}`
+    }
+    const a = once(); const b = once()
+    return { deterministic: a === b, failure: a }
+  }
   const run = () => {
     const init = INITIAL[rec.initial]
     const comp = D.create(bundle, MAIN, init, updateMode)
@@ -349,6 +518,13 @@ async function main() {
     return
   }
   const rep = await C.runSharded(fileURLToPath(import.meta.url), ['--tier', thorough ? 'thorough' : 'quick', '--property', MODE], NODE22, ['--no-warnings', '--stack-size=4000', '--import', HOOKS])
+  if (MODE === 'C04') {
+    const res04 = rep.toResult('C04',
+      'conformance of the recording runtime (substrate B) with the real TypeScript runtime (substrate A): for every template of the model corpus (dynamic-slot content excluded) and every data state reachable by one transition from the two initial states, both runtimes execute the same bundle and must build the same skeleton (tags, nesting, text, dataset, marks, slot elements and their names)',
+      { corpus: corpus(thorough).length, initial_states: INITIAL.length }, true, ['a disagreement here is a defect of the checking machinery (or of the real runtime), not of the compiler: it is reported so that it cannot go unnoticed'], {})
+    C.writeResult(C.argAfter('--out', C.WORK + '/C04.result.json'), res04)
+    return
+  }
   if (MODE === 'C14') {
     const res14 = rep.toResult('C14',
       'update-equivalence clause on the real runtime: for every template of the model corpus (dynamic-slot content excluded), the bundle of the original and the bundle of its re-printed text are instantiated side by side from two initial data states and driven through every enabled transition (quick) and a reduced second transition from every reached state (thorough); the serialised shadow trees must be equal at creation and after every history. non-trivial = the printed text differs from the input',
